@@ -68,7 +68,7 @@ def cases():
         st.tuples(st.just('client'), st.integers(0, 2), st.integers(100, 199)),
     )
     return st.fixed_dictionaries({
-        'steps': st.lists(step.map(list), min_size=3, max_size=25)})
+        'steps': st.lists(step.map(list), min_size=8, max_size=25)})
 
 
 def execute(case):
